@@ -168,6 +168,11 @@ class Extractor:
             if not os.path.exists(p):
                 raise ExtractError(f"source file {rel} not found")
             src = open(p, encoding="utf-8").read()
+            # the staged copy may carry this framework's own Kani overlay modules appended after the repository's
+            # text (add-only, marked): extraction sees the repository's text only
+            k = src.find("// ===== folo-verif overlay")
+            if k >= 0:
+                src = src[:k]
             m = mask(src, keep_strings=False)
             m = strip_test_mods(src, m)
             ms = mask(src, keep_strings=True)
